@@ -732,6 +732,16 @@ example :
     c.1.cur = [(7, 1)] ∧ c.1.counts = [1, 1] := by
   decide
 
+/-- The theorem depends on `Listener(v)` doing its lookup inside the write-locked section: with the lookup made under the
+read lock and used after taking the write lock (`ThS.mkStale`; seeded change C15-r4-2), the last deregistration can
+close and delete the entry in between, the new listener joins the closed channel, and its `Wait` succeeds although
+`Notify` was never called (`hit` is false; nothing was notified at all). -/
+theorem C15_notifier_stale_listener_witness :
+    let c := runSched sysS (init, [.base (.mk 7 false), .mkStale 7 none, .base (.dr 0 none .swap), .base (.w0 1)])
+      [(0, 0), (1, 0), (2, 0), (2, 0), (2, 0), (1, 0), (3, 0), (3, 0), (3, 0)]
+    c.2[3]? = some (.base (.dr 1 (some .ok) .swap)) ∧ c.1.ls.map (·.hit) = [false, false] ∧ c.1.closed = [0] := by
+  decide
+
 end notifierconc
 
 /-! ## promise events -/
